@@ -50,7 +50,7 @@ std::string run_oi(const Args& a) {
 			}
 			else return "bad-op";
 		}
-		catch (const DuplicateOption&) { out.push_back("DUP"); break; }
+		catch (const DuplicateOption&) { out.push_back("DUP"); }   // the caller goes on using the context
 	}
 	return join(out);
 }
